@@ -384,3 +384,10 @@ def r6(rr, repo):
         envsrc = [x for x in walk_scope(za.R_once) if isinstance(x, ast.Assign) and any(isinstance(c, ast.Call) and U(c.func) in ('json_loads', 'json.loads') for c in ast.walk(x.value))]
         okenv = any(f'{src}[1]' in U(x.value) for x in envsrc)
         rr.ob('receiver: the envelope is decoded from frame 1 of the same wire message', okenv, za.mod, n, witness='; '.join(U(x)[:60] for x in envsrc)[:160], key='recv-envelope')
+
+
+@rule('C09.R7', "the image header on the wire says what the frame is: the writer takes height, width, format and 'already encoded?' from accessors that read rows / columns / label / jpg cache of the frame's "
+                'declared state (shares C10.R9)')
+def r7(rr, repo):
+    from .c10 import r9 as c10r9
+    c10r9(rr, repo)
